@@ -16,6 +16,9 @@ FIXED = [
  ("C02","a2e6ba3","C02:if:missing-error:typecheck","`true 5 if`, `false 1 2 ifelse`, `7 loop`, `0 1 2 5 for` executed a non-procedure operand instead of failing with typecheck"),
  ("C01","d2218c7","panic: runtime error: slice bounds out of range @seehuhn.de/go/postscript.bCopy","`1 2 9223372036854775807 copy` panicked (count check overflowed)"),
  ("C01","f3e7eb9","panic: runtime error: slice bounds out of range @seehuhn.de/go/postscript.bPutinterval","`3 string 9223372036854775807 (ab) putinterval` panicked (range check overflowed)"),
+ ("C01","35984e1","C01:crash:font:lenIV=-1099511627776","a negative /lenIV made type1.Read panic (makeslice) or die with a fatal out-of-memory error (lenIV -2^40 asks for a terabyte)"),
+ ("C01","4b5e453","panic: runtime error: slice bounds out of range @seehuhn.de/go/postscript/type1.","charstring `0 0 callothersubr` panicked in the charstring decoder (slice [:-1])"),
+ ("C01","25ffaad","C01:crash:ps-operator:bind","`bind` on two 12-slot procedures that contain each other in every slot walked (n!)^2 paths: a hang inside one operation that no budget stops"),
  ("C03","fd1b9e3","C03:shapes:state:stack-depth:{exec,lit}","`{ {1 2} } exec` executed the inner procedure (procedure literal in tail position run instead of pushed)"),
  ("C03","9f20894","C03:shapes:unexpected-error:invalidexit:{repeat,exit}","`3 {exit} repeat` reported invalidexit; `stop` inside repeat only ended the loop (errStop/errExit swapped)"),
  ("C03","504480d","C03:dictstack:state:value:{dict}","`{/add} bind` replaced the literal name /add by the operator"),
